@@ -96,10 +96,35 @@ def hc_case(draw, max_cols=4):
     ds["pass_state_names"] = False
     topo = list(draw(st.permutations(cols)))
     pairs = [(topo[i], topo[j]) for j in range(len(topo)) for i in range(j)]
-    start_mode = draw(st.sampled_from(["none", "none", "dag"]))
-    start = [p for p in pairs if draw(st.integers(0, 3)) == 0] if start_mode == "dag" else []
-    fixed = [p for p in pairs if draw(st.integers(0, 5)) == 0] if draw(st.booleans()) else []
-    max_indeg = draw(st.sampled_from([None, None, 1, 2]))
+    trap = len(cols) >= 3 and draw(st.integers(0, 3)) == 0
+    if trap:
+        # "saturated tail" construction: column c is a function of columns a and b that neither explains alone
+        # (parity), the start graph is the chain a -> c -> b and the in-degree bound is 1 (or 2 with one more parent of
+        # c): the only big gain is reversing c -> b, which the bound forbids. Rows are replaced by a balanced design.
+        a, c, b = topo[0], topo[1], topo[2]
+        ia, ic, ib = cols.index(a), cols.index(c), cols.index(b)
+        ka, kb, kc = len(ds["states"][ia]), len(ds["states"][ib]), len(ds["states"][ic])
+        reps = draw(st.integers(3, 12))
+        rows = []
+        for r in range(reps):
+            for x in range(ka):
+                for y in range(kb):
+                    row = [draw(st.integers(0, len(sts) - 1)) for sts in ds["states"]]
+                    row[ia], row[ib], row[ic] = x, y, (x + y) % kc
+                    rows.append(row)
+        ds["rows"] = rows
+        start_mode = "dag"
+        start = [(a, c), (c, b)]
+        fixed = []
+        max_indeg = 1
+        if len(cols) >= 4 and draw(st.booleans()):
+            start.append((topo[3], c))
+            max_indeg = 2
+    else:
+        start_mode = draw(st.sampled_from(["none", "none", "dag"]))
+        start = [p for p in pairs if draw(st.integers(0, 3)) == 0] if start_mode == "dag" else []
+        fixed = [p for p in pairs if draw(st.integers(0, 5)) == 0] if draw(st.booleans()) else []
+        max_indeg = draw(st.sampled_from([None, None, 1, 2]))
     if max_indeg is not None:
         # make start u fixed respect the bound
         keep, indeg = [], {}
@@ -111,11 +136,11 @@ def hc_case(draw, max_cols=4):
         start = [e for e in start if e in keep]
     used = set(start) | set(fixed)
     allp = list(itertools.permutations(cols, 2))
-    black = [p for p in allp if p not in used and draw(st.integers(0, 4)) == 0] if draw(st.booleans()) else None
-    white = [p for p in allp if draw(st.integers(0, 2)) > 0] if draw(st.integers(0, 2)) == 0 else None
+    black = [p for p in allp if p not in used and draw(st.integers(0, 4)) == 0] if draw(st.booleans()) and not trap else None
+    white = [p for p in allp if draw(st.integers(0, 2)) > 0] if draw(st.integers(0, 2)) == 0 and not trap else None
     return {"data": ds, "scoring": draw(st.sampled_from(SCORINGS)), "start_mode": start_mode, "start": [list(e) for e in start],
             "fixed": [list(e) for e in fixed], "black": None if black is None else [list(e) for e in black],
-            "white": None if white is None else [list(e) for e in white], "max_indegree": max_indeg,
+            "white": None if white is None else [list(e) for e in white], "max_indegree": max_indeg, "trap": bool(trap),
             "tabu_length": draw(st.sampled_from([0, 0, 1, 5, 100])), "epsilon": draw(st.sampled_from([1e-8, 1e-4, 0.5])),
             "max_iter": draw(st.sampled_from([1, 3, 10**6, 10**6]))}
 
@@ -136,6 +161,8 @@ def check_hc(case, out):
     for nm, v in (("fixed", fixed), ("black", black), ("white", white), ("max_indegree", mi)):
         if v:
             out.cls(f"with_{nm}")
+    if case.get("trap"):
+        out.cls("saturated_tail_reversal_trap")
     hc = out.call("HillClimbSearch", HillClimbSearch, df)
     if hc is RAISED:
         return
